@@ -277,6 +277,17 @@ def oracle(c, o):
             return "opendir and SimfileDirectory.open disagree in %s" % n
     if o["openpack"][0] == "err" and o["openpack"][1] == "load" and not c["strict"]:
         return "openpack did not pass strict=False through"
+    # duplicates inside a member directory: the pack-level entry points raise like the directory does
+    dup_members = []
+    for m in want_pack:
+        names = [x for x, _ in o["listings"][m[len("/pack"):]]]
+        if len([x for x in names if x.lower().endswith(".sm")]) > 1 or len([x for x in names if x.lower().endswith(".ssc")]) > 1:
+            dup_members.append(m)
+    if dup_members:
+        if o["openpack"][0] == "ok":
+            return "openpack opened a pack whose member %s has two simfiles of one kind without DuplicateSimfileError" % dup_members[0]
+        if not c["ignore"] and o.get("pack_simfiles", ["err"])[0] == "ok":
+            return "SimfilePack.simfiles() opened member %s with two simfiles of one kind without DuplicateSimfileError" % dup_members[0]
     return None
 
 
